@@ -269,6 +269,8 @@ def check_setters(model, rep):
 
 
 def check(model, rep):
+    from checks.solver_common import absorb_cmp
+    absorb_cmp(model, rep, 'C10.dep.cmp', ('Angle', 'Length'))
     rep.explain('C10: the three relation functions evaluated symbolically with master/slave of unknown class (class '
                 'knowledge only through the functions\' own isinstance checks); accepting paths must perform exactly the '
                 'specified assignments (links, roles, ratio, efficiency formula, self-locking criterion) per operand '
